@@ -39,12 +39,12 @@ def cmp_(o, a, b):
     return ('cmp', o, a, b)
 
 
-CONDS = [cmp_('<', X, n_(2)), cmp_('!=', X, Y), cmp_('<=', X, Y), ('true',), cmp_('==', X, n_(0))]
+CONDS = [cmp_('<', X, n_(2)), cmp_('!=', X, Y), cmp_('<=', X, Y), ('true',), cmp_('==', X, n_(0)), cmp_('>', X, n_(0)), cmp_('>=', X, Y)]
 ASSERTS = [('true',), cmp_('==', X, n_(0)), cmp_('<=', X, Y), cmp_('==', op('+', X, Y), n_(2)),
            cmp_('==', op('-', X, op('-', Y, n_(1))), n_(1)), cmp_('==', op('-', op('-', X, Y), n_(1)), n_(0)),
            cmp_('==', op('+', op('*', X, Y), n_(1)), n_(1)), ('not', cmp_('<=', X, Y)),
            ('and', cmp_('<=', X, Y), cmp_('<=', Y, n_(2))), ('imp', cmp_('==', X, n_(1)), cmp_('==', Y, n_(1))),
-           cmp_('==', op('*', op('+', X, n_(1)), n_(2)), Y), cmp_('<', op('-', X, op('*', Y, n_(2))), n_(1))]
+           cmp_('==', op('*', op('+', X, n_(1)), n_(2)), Y), cmp_('<', op('-', X, op('*', Y, n_(2))), n_(1)), cmp_('>', X, Y), cmp_('>=', op('+', X, n_(1)), Y)]
 PRES = [('true',), cmp_('==', X, n_(0)), cmp_('<=', X, Y), cmp_('==', Y, n_(1))]
 
 
@@ -122,7 +122,7 @@ def ev_c(c, s):
         return True
     if k == 'cmp':
         a, b = ev_e(c[2], s), ev_e(c[3], s)
-        return {'==': a == b, '!=': a != b, '<=': a <= b, '<': a < b}[c[1]]
+        return {'==': a == b, '!=': a != b, '<=': a <= b, '<': a < b, '>': a > b, '>=': a >= b}[c[1]]
     if k == 'not':
         return not ev_c(c[1], s)
     if k == 'and':
@@ -320,6 +320,10 @@ def check_vc_lines(c, case):
         if l['ty'] != 'vc':
             continue
         text = l['str']
+        if '>' in text.replace('-->', ''):
+            # > and >= exist only in the API, the grammar cannot read them back: nothing to compare
+            vcs.append(l)
+            continue
         try:
             back = parser2.cond_parser.parse(text)
         except Exception as e:
@@ -416,7 +420,10 @@ def run_prog(case):
             allvalid = True
             for l in vcs:
                 from imperative import parser2
-                r = z3_valid(parser2.cond_parser.parse(l['str']))
+                try:
+                    r = z3_valid(parser2.cond_parser.parse(l['str']))
+                except Exception:
+                    r = None
                 r2 = None
                 if r is None:
                     allvalid = None
